@@ -458,3 +458,6 @@ def check(ctx):
                        "the text projection (index = first column, message key = timestamp column, ids = ECU/APID/CTID columns) is correct",
                        "the reference stream A is what the same binary prints without selection (checked for consistency with the generated input)",
                        "TZ=UTC, fresh process per run; reception times unique over all input files except the deliberately tied first messages"]
+
+# round 6 (DESIGN.md 11.10)
+META["technique"] += ' Every other -o path exists before the run and is larger than anything the run can write.'
